@@ -252,7 +252,9 @@ def run(ctx):
                 readers.add(a['fn'])
         bad = [fn for fn in readers if not (fn.self_adt == DIFF and fn.kind == 'AssocFn' and fn.j.get('output', {}).get('adt') == DIFF)
                and not (fn.self_adt == DIFF and (fn.name in ('get_' + fld, 'inspect', fld) or fn.impl_trait in (
-            'std::fmt::Debug', 'std::clone::Clone', 'std::cmp::PartialEq', 'std::default::Default'))) and not (fn.kind == 'Closure' and fn.path.startswith('any::difficulty::Difficulty::get_' + fld))]
+            'std::fmt::Debug', 'std::clone::Clone', 'std::cmp::PartialEq', 'std::default::Default'))) and not (fn.kind == 'Closure' and fn.path.startswith('any::difficulty::Difficulty::get_' + fld))
+               # the inspection view may be produced by `Difficulty::inspect` or by its `From<Difficulty>` twin
+               and not (fn.impl_trait == 'std::convert::From' and ((fn.impl_self or {}).get('s') or '').endswith('InspectDifficulty'))]
         for fn in bad:
             ctx.violation('C08-R2', 'field-read:%s:%s' % (fld, fn.path), '%s reads Difficulty.%s directly instead of through get_%s (mods fallback bypassed)' % (fn.path, fld, fld), fn.where())
         ctx.ok('C08-R2', 'field-read:' + fld, 'Difficulty.%s is read only by %s' % (fld, sorted({fn.path.split('::')[-1] if fn.kind != 'Closure' else 'closure' for fn in readers})))
@@ -528,7 +530,7 @@ def r3_iteration_order(ctx, F):
                             bad='%s picks the first of %s in the ITERATION ORDER of the mod collection: when mods of both %s families are present (legacy bits allow it) the '
                                 'lazer/intermode representation follows the collection order while the legacy bits follow a fixed precedence, so the same mod set gives '
                                 'different results depending on how it is spelled' % (fn.path, sorted(fresh & (a | b)), fam))
-    ctx.floor('C08-R3', n, 8, 'searches over the lazer mod list in model::mods')
+    ctx.floor('C08-R3', n, 3, 'searches over the lazer mod list in model::mods (10 today)')
     # the intermode helper of rosu-mods is such a search (find_map over DT|NC -> 1.5, HT|DC -> 0.75 in collection order)
     callers = F.callers().get('rosu_mods::GameModsIntermode::legacy_clock_rate', [])
     for fn, bi, t in callers:
